@@ -170,6 +170,7 @@ def run(rep, tier):
         rep.add('R2', mn + ':clocking', bool(mod.ff) and not bad, fn,
                 '%d clocked block(s); offending sensitivity lists: %s' % (len(mod.ff), bad) if bad else
                 '%d clocked block(s), all on posedge i_clk (+ optional posedge i_rst)' % len(mod.ff), nontrivial=False)
+    clock_connections(rep, 'R2', d, top)
     # R3: fetch and data read paths (instruction byte symbolic)
     r, ev = rtl_summary(d, top, 0, 0, None, fetch_override=False)
     proc = ev.scope(top + '.u_processor')
@@ -188,6 +189,31 @@ def run(rep, tier):
         ok = all(r['next'].get(k) == const(w, 0) for k, w in (('pc_q', 21), ('areg_q', 32), ('breg_q', 32), ('oreg_q', 32)))
         rep.add('R4', 'reset:byte=0x%02X' % b, ok, 'verilog/processor.sv',
                 'next state under reset: %s' % {k: repr(v) for k, v in r['next'].items()})
+
+
+def clock_connections(rep, rid, d, top):
+    """One clock domain: the clock and reset inputs of every instance are wired to the top level's own i_clk / i_rst inputs, not to a
+    derived (inverted, gated, registered) net -- a block clocked by ~i_clk works on the other edge, e.g. its last store before reset is
+    released happens while reset is still asserted."""
+    tm = d.modules[top]
+    inputs = {n for n, v in tm.vars.items() if v.get('dir') == 'input'}
+    n = 0
+    for iname, inst in tm.instances.items():
+        for p in inst.findall('port'):
+            if p.get('name') not in ('i_clk', 'i_rst'):
+                continue
+            n += 1
+            a = p[0] if len(p) else None
+            ok = a is not None and a.tag == 'varref' and a.get('name') == p.get('name') and a.get('name') in inputs
+            how = 'unconnected' if a is None else (a.get('name') if a.tag == 'varref' else '<%s ...>' % a.tag)
+            if a is not None and a.tag == 'varref' and a.get('name') in tm.cont:
+                how += ' = <%s> of %s' % (tm.cont[a.get('name')].tag, sorted({x.get('name') for x in tm.cont[a.get('name')].iter('varref')}))
+            rep.add(rid, '%s.%s:%s-connection' % (top, iname, p.get('name')), ok, 'verilog/%s.sv' % top,
+                    'connected to the top-level input %s' % p.get('name') if ok else
+                    'the %s input of %s is driven by %s, not by the top-level %s: the instance is in a different clock/reset domain than the ISA '
+                    'step relation assumes' % (p.get('name'), iname, how, p.get('name')), nontrivial=False)
+    if n == 0:
+        raise AnalysisBroken('no i_clk / i_rst instance connections found in %s' % top)
 
 
 def _cmp(rep, rule, key, exp, got, where):
